@@ -15,6 +15,7 @@ import (
 	"runtime"
 	"sort"
 	"strings"
+	"sync"
 	"time"
 
 	"verifharness/fakesvc"
@@ -144,7 +145,7 @@ func runOp(em *emitter, g *gw.GW, mono *fakesvc.Net, w *world.World, op *world.O
 func runOpWith(em *emitter, g *gw.GW, mono *fakesvc.Net, w *world.World, op *world.Op, run string, o runOpts) bool {
 	op.Fill()
 	g.ResetLogs()
-	text := w.OpText(op)
+	text := w.DocText(op)
 	// R7: the harness's own evaluator on the merged world (one service declaring everything); an
 	// operation it does not accept is a generator reject, not a case
 	var monoRes map[string]interface{}
@@ -351,6 +352,91 @@ func genErrors(rng *rand.Rand) []map[string]interface{} {
 	return out
 }
 
+// repeatRuns executes the same operation several times on the same gateway (and with the same
+// fault plan) while the fake transport perturbs the completion order of the concurrent calls, and
+// emits one Obs event per execution (C13).
+func repeatRuns(em *emitter, rng *rand.Rand, g *gw.GW, w *world.World, op *world.Op, run string, repeats int) {
+	op.Fill()
+	var fault *fakesvc.FaultSpec
+	g.ResetLogs()
+	g.Do(op)
+	dryLogs, calls := g.Net.Snapshot()
+	if len(calls) > 0 && rng.Intn(3) == 0 {
+		// the fault is tied to ONE sub-request by identity, so that the service answers the same way
+		// whatever position the request has in its batch
+		tl := dryLogs[rng.Intn(len(dryLogs))]
+		c := calls[0]
+		for _, x := range calls {
+			if x.Svc == tl.Svc && x.Call == tl.Call {
+				c = x
+			}
+		}
+		kind := fakesvc.AllFaultKinds[rng.Intn(len(fakesvc.AllFaultKinds))]
+		for kind == "tooshort" || kind == "toolong" { // these depend on the order of the batch
+			kind = fakesvc.AllFaultKinds[rng.Intn(len(fakesvc.AllFaultKinds))]
+		}
+		fault = &fakesvc.FaultSpec{Kind: kind, Svc: c.Svc, Call: c.Call, Pos: tl.Pos, Match: fakesvc.Identity(tl.Query, tl.Vars)}
+		if kind == "errors" || kind == "errorsall" {
+			fault.Errors = genErrors(rng)
+		}
+	}
+	key := run
+	if fault != nil {
+		key += fmt.Sprintf("|%s@%s#%d.%d", fault.Kind, fault.Svc, fault.Call, fault.Pos)
+	}
+	delays := rand.New(rand.NewSource(rng.Int63()))
+	var dmu sync.Mutex
+	for k := 0; k < repeats; k++ {
+		g.ResetLogs()
+		applied := false
+		if fault != nil {
+			g.Net.Fault = fault.Apply(&applied)
+		}
+		g.Net.Gate = func(svc string, call int) {
+			dmu.Lock()
+			d := time.Duration(delays.Intn(300)) * time.Microsecond
+			dmu.Unlock()
+			if d > 100*time.Microsecond {
+				time.Sleep(d)
+			} else {
+				runtime.Gosched()
+			}
+		}
+		em.w.Flush()
+		st, env, err := g.Do(op)
+		g.Net.Fault = nil
+		g.Net.Gate = nil
+		logs, _ := g.Net.Snapshot()
+		reqs := map[string][]string{}
+		for _, s := range w.Services {
+			reqs[s.URL] = []string{}
+		}
+		for _, lgx := range logs {
+			reqs[lgx.Svc] = append(reqs[lgx.Svc], lgx.Query+" | "+canon(lgx.Vars))
+		}
+		for u := range reqs {
+			sort.Strings(reqs[u])
+		}
+		msgs := []string{}
+		data := world.Z()
+		if err != nil {
+			msgs = []string{"malformed response: " + err.Error()}
+		} else {
+			seen := map[string]bool{}
+			for _, m := range errorMessages(env) {
+				if !seen[m.(string)] {
+					seen[m.(string)] = true
+					msgs = append(msgs, m.(string))
+				}
+			}
+			sort.Strings(msgs)
+			data = world.TagJSON(env["data"])
+		}
+		em.emit(map[string]interface{}{"ev": "Obs", "key": key, "k": k, "status": st, "data": data, "errors": msgs, "reqs": reqs, "text": w.OpText(op),
+			"tags": op.Tags, "fault": fault != nil, "op": op})
+	}
+}
+
 // faultRuns: a fault-free run (to learn which calls the operation makes), then the same operation
 // with ONE fault injected at a chosen (service, call, position), then a fault-free canary.
 func faultRuns(em *emitter, rng *rand.Rand, g *gw.GW, mono *fakesvc.Net, w *world.World, op *world.Op, run string) {
@@ -386,7 +472,8 @@ func cmdGen(args []string) {
 	feat := fs.String("features", "", "comma separated: abstract,disjoint,oddids,biglists,nomut")
 	cfgs := fs.String("cfgs", "default", "comma separated gateway configurations: default,sanitize,idhint,cached,batch1,batch2")
 	dump := fs.String("dump", "", "directory to dump SDLs of failing-to-start worlds")
-	mode := fs.String("mode", "plain", "plain | faults | invalid")
+	mode := fs.String("mode", "plain", "plain | faults | invalid | repeat")
+	repeats := fs.Int("repeats", 6, "executions per operation in repeat mode")
 	fs.Parse(args)
 	em, closef := newEmitter(*out)
 	defer closef()
@@ -402,6 +489,8 @@ func cmdGen(args []string) {
 			cfg.OddIDs = true
 		case "biglists":
 			cfg.BigLists = true
+		case "richargs":
+			cfg.RichArgs = true
 		case "nomut":
 			cfg.Mutations = false
 		default:
@@ -447,20 +536,39 @@ func cmdGen(args []string) {
 				op = prev // the same operation again (plan reuse, de-duplication bookkeeping)
 			}
 			prev = op
-			for gi, g := range gws {
-				var m *fakesvc.Net
-				if gi == 0 {
-					m = mono
-				}
-				run := fmt.Sprintf("%d.%d.%s", w.ID, k, g.Cfg.Name)
-				switch *mode {
-				case "faults":
-					faultRuns(em, rng, g, m, w, op, run)
-				case "invalid":
-					invalidRuns(em, rng, g, mono, w, op, run)
-				default:
-					if !runOp(em, g, m, w, op, run) {
-						break
+			todo := []*world.Op{op}
+			if *mode == "plain" && op.Doc == "" && rng.Intn(7) == 0 {
+				// two operations in ONE document, posted twice with different operationName
+				cfg2 := cfg
+				cfg2.FragBase = 100
+				op2 := world.GenOp(rng, w, cfg2, kind)
+				op.Name, op2.Name = fmt.Sprintf("DocA%d", k), fmt.Sprintf("DocB%d", k)
+				op.Fill()
+				op2.Fill()
+				doc := w.OpText(op) + w.OpText(op2)
+				op.Doc, op2.Doc = doc, doc
+				op.Tags = append(op.Tags, "multi-op-doc")
+				op2.Tags = append(op2.Tags, "multi-op-doc")
+				todo = append(todo, op2)
+			}
+			for _, op := range todo {
+				for gi, g := range gws {
+					var m *fakesvc.Net
+					if gi == 0 {
+						m = mono
+					}
+					run := fmt.Sprintf("%d.%d.%s", w.ID, k, g.Cfg.Name)
+					switch *mode {
+					case "faults":
+						faultRuns(em, rng, g, m, w, op, run)
+					case "repeat":
+						repeatRuns(em, rng, g, w, op, run, *repeats)
+					case "invalid":
+						invalidRuns(em, rng, g, mono, w, op, run)
+					default:
+						if !runOp(em, g, m, w, op, run) {
+							break
+						}
 					}
 				}
 			}
